@@ -406,6 +406,36 @@ def match_known(prop_id, f, known):
     return None
 
 
+def run_witnesses(prop_id):
+    """Open known findings that carry a witness (findings/<id>.py with reproduce() -> None | str): the defect is
+    excluded from generation by construction, the witness shows on every run that it is still there.
+    -> (list of (entry, observed) that reproduce, list of ids that no longer do)"""
+    import importlib.util
+
+    hits, gone = [], []
+    for e in load_known():
+        if e.get("property") != prop_id or not e.get("witness"):
+            continue
+        path = os.path.join(VERIF, e["witness"])
+        try:
+            spec = importlib.util.spec_from_file_location("finding_" + e["id"].replace("-", "_"), path)
+            mod = importlib.util.module_from_spec(spec)
+            spec.loader.exec_module(mod)
+            with time_limit(120):
+                res = mod.reproduce()
+        except CaseTimeout:
+            res = "witness timed out"
+        except Exception as ex:  # the witness itself must never break the check
+            res = None
+            gone.append("%s (witness raised %s: %s)" % (e["id"], type(ex).__name__, short(str(ex), 120)))
+            continue
+        if res:
+            hits.append((e, str(res)))
+        else:
+            gone.append(e["id"])
+    return hits, gone
+
+
 # ---------------------------------------------------------------------------
 # generated corpus fonts named in a case travel with the replay file
 
@@ -576,6 +606,12 @@ def run(mod, tier, seed, nproc=None):
         out_lines.append("  bucket=%s n=%d detail=%s" % (key, total._bucket_counts.get(key, len(fs)), short(f["detail"], 300)))
     for kid, (e, n) in known_hits.items():
         print("KNOWN-FINDING: property=%s %s (%s; %d case(s) this run)" % (mod.ID, e["what"], kid, n))
+    w_hits, w_gone = run_witnesses(mod.ID)
+    for e, observed in w_hits:
+        known_hits.setdefault(e["id"], [e, 0])[1] += 1
+        print("KNOWN-FINDING: property=%s %s (%s; witness %s: %s)" % (mod.ID, e["what"], e["id"], e["witness"], short(observed, 200)))
+    for g in w_gone:
+        print("NOTE: known finding %s no longer reproduces" % g)
 
     nontriv = len(total.nontrivial) + total.nontrivial_bulk
     if not total.samples:  # a module that recorded no sample: show at least which jobs ran
